@@ -231,7 +231,6 @@ pub struct Slicing { pub id: Ghost<int> }
 pub struct StructIns { pub id: Ghost<int> }            // instruction::struct::Struct
 pub struct TupleAccess { pub id: Ghost<int> }
 pub struct TypeFilter { pub id: Ghost<int> }
-pub struct LocalVariable { pub id: Ghost<int> }
 pub struct NativeFn { pub id: Ghost<int> }              // fn(&mut Interpreter) -> Result<Variable, ExecError> (fn pointers: outside Verus)
 pub struct Name { pub id: Ghost<int> }                 // Arc<str> used as an identifier
 
@@ -525,6 +524,80 @@ impl vstd::std_specs::convert::FromSpecImpl<Variable> for Instruction {
     open spec fn from_spec(v: Variable) -> Instruction { Instruction::Variable(v) }
 }
 impl From<Variable> for Instruction { fn from(v: Variable) -> (r: Instruction) { Instruction::Variable(v) } }
+
+// ----- recreate pass: environment operations and statement lists ---------------------------------
+pub uninterp spec fn lv_insert(s: int, name: Name, v: LocalVariable) -> int;
+pub uninterp spec fn lv_of_instruction(i: Instruction) -> LocalVariable;
+impl LocalVariables {
+    #[verifier::external_body]
+    pub fn create_layer(&self) -> (r: LocalVariables) ensures r.st@ == lv_layer(self.st@) { unimplemented!() }
+    #[verifier::external_body]
+    pub fn insert(&mut self, name: Name, variable: LocalVariable)
+        ensures final(self).st@ == lv_insert(old(self).st@, name, variable) { unimplemented!() }
+}
+// `impl From<&Instruction> for LocalVariable` (local_variable.rs) — not verified
+impl vstd::std_specs::convert::FromSpecImpl<&Instruction> for LocalVariable {
+    open spec fn obeys_from_spec() -> bool { true }
+    open spec fn from_spec(v: &Instruction) -> LocalVariable { lv_of_instruction(*v) }
+}
+impl From<&Instruction> for LocalVariable {
+    #[verifier::external_body]
+    fn from(v: &Instruction) -> (r: LocalVariable) { unimplemented!() }
+}
+/// recreate_instructions: `iter().map(|iws| iws.recreate(lv)).collect()` — assumed left to right, stop at first Err
+pub open spec fn rseq_res(ins: Seq<InstructionWithStr>, s: int, k: int, acc: Seq<Instruction>) -> Result<Seq<Instruction>, ExecError>
+    decreases ins.len() - k
+{
+    if k >= ins.len() || k < 0 { Ok(acc) }
+    else {
+        match rec_res(ins[k].instruction, s) {
+            Err(e) => Err(e),
+            Ok(i) => rseq_res(ins, rec_st(ins[k].instruction, s), k + 1, acc.push(i)),
+        }
+    }
+}
+pub open spec fn rseq_st(ins: Seq<InstructionWithStr>, s: int, k: int) -> int
+    decreases ins.len() - k
+{
+    if k >= ins.len() || k < 0 { s }
+    else {
+        match rec_res(ins[k].instruction, s) {
+            Err(e) => rec_st(ins[k].instruction, s),
+            Ok(i) => rseq_st(ins, rec_st(ins[k].instruction, s), k + 1),
+        }
+    }
+}
+#[verifier::external_body]
+pub fn recreate_instructions(instructions: &[InstructionWithStr], local_variables: &mut LocalVariables)
+    -> (r: Result<Arc<[InstructionWithStr]>, ExecError>)
+    ensures
+        (match rseq_res(instructions@, old(local_variables).st@, 0, Seq::empty()) {
+            Ok(is) => r is Ok && r->Ok_0@.len() == is.len()
+                      && (forall|i: int| 0 <= i < is.len() ==> r->Ok_0@[i].instruction == is[i] && r->Ok_0@[i].str == instructions@[i].str),
+            Err(e) => r == Err::<Arc<[InstructionWithStr]>, ExecError>(e),
+        }),
+        final(local_variables).st@ == rseq_st(instructions@, old(local_variables).st@, 0),
+{ unimplemented!() }
+impl vstd::std_specs::convert::FromSpecImpl<Loop> for Instruction {
+    open spec fn obeys_from_spec() -> bool { true }
+    open spec fn from_spec(v: Loop) -> Instruction { Instruction::Loop(Arc::new(v)) }
+}
+impl From<Loop> for Instruction { fn from(v: Loop) -> (r: Instruction) { Instruction::Loop(Arc::new(v)) } }
+impl vstd::std_specs::convert::FromSpecImpl<Block> for Instruction {
+    open spec fn obeys_from_spec() -> bool { true }
+    open spec fn from_spec(v: Block) -> Instruction { Instruction::Block(v) }
+}
+impl From<Block> for Instruction { fn from(v: Block) -> (r: Instruction) { Instruction::Block(v) } }
+impl vstd::std_specs::convert::FromSpecImpl<Set> for Instruction {
+    open spec fn obeys_from_spec() -> bool { true }
+    open spec fn from_spec(v: Set) -> Instruction { Instruction::Set(Arc::new(v)) }
+}
+impl From<Set> for Instruction { fn from(v: Set) -> (r: Instruction) { Instruction::Set(Arc::new(v)) } }
+impl vstd::std_specs::convert::FromSpecImpl<SetIfElse> for Instruction {
+    open spec fn obeys_from_spec() -> bool { true }
+    open spec fn from_spec(v: SetIfElse) -> Instruction { Instruction::SetIfElse(Arc::new(v)) }
+}
+impl From<SetIfElse> for Instruction { fn from(v: SetIfElse) -> (r: Instruction) { Instruction::SetIfElse(Arc::new(v)) } }
 
 //@MACHINE
 
